@@ -1,5 +1,6 @@
 import PsV.Proofs.Lanes
 import PsV.Proofs.Bridge
+import PsV.Proofs.PolyDeriv
 /-!
 # C02 — derivative and gradient evaluations (first part: structural facts)
 
@@ -72,6 +73,18 @@ theorem C02_mask_eval_eq_spec_partial (T : Table β) (xs : List β) (cs : List N
     (hs : @searchCenters β (cmpLO β) (T.dims.map Dim.axis) xs = .ok cs) :
     ndsplineeval T xs cs mask = specEval T xs (maskModes T.dims.length mask) :=
   ndsplineeval_mask_eq_specEval T xs cs mask (allOK_of_search T.dims xs cs hwf.dims hlen hnd hs) hwf.stride
+
+/-- **The knot-difference formula is the true derivative of the polynomial piece**: `Pp` is the
+piece of basis function `i` on interval `left` as a `Polynomial`, its evaluation is what the code's
+value recurrence computes (`Bp`), and the evaluation of its `Polynomial.derivative` is the formula
+`(n+1)(B_{i,n}/(t_{i+n+1}-t_i) − B_{i+1,n}/(t_{i+n+2}-t_{i+1}))` that `bspline_deriv_nonzero` computes —
+for knots non-decreasing on the indices the function uses (repeated knots allowed, `a/0 = 0`). -/
+theorem C02_formula_is_derivative (t : Int → β) (x : β) (left : Int) (n : Nat) (i : Int)
+    (hmono : ∀ a b : Int, i ≤ a → a ≤ b → b ≤ i + n + 2 → t a ≤ t b) :
+    (Pp t left (n+1) i).eval x = Bp t x left (n+1) i ∧
+    (Polynomial.derivative (Pp t left (n+1) i)).eval x = DBp t x left n i := by
+  refine ⟨eval_Pp t x left (n+1) i, ?_⟩
+  rw [eval_derivative_Pp, dBp_eq_DBp t x left n i hmono]
 
 end field
 
